@@ -81,7 +81,7 @@ class FsRun:
         self.busy = False  # a multi-primitive operation is in progress (the model lags behind the real tree)
         self.ever = {"root"}
         self.backend = self.w.get("backend", "inotify")
-        self.poll_interval = 1.0
+        self.poll_interval = float(self.w.get("observer_timeout", 1.0))  # BaseObserver(timeout=...): also the polling interval
 
     # ------------------------------------------------------------------ paths
     def real(self, rel):
